@@ -148,3 +148,40 @@ Definition net_verdict (c : net_case) : verdict :=
   | Err _, Raised => BothReject
   | Err _, Obs _ => ModelUndefined
   end.
+
+(* ---- C08: energy / reciprocity checks on the observed matrix itself ---- *)
+Inductive ekind := ELossless | EPassive | EReciprocal.
+
+Record en_case := { en_net : net_case; en_kinds : list ekind; en_us : list (list QcCf) }.
+
+Definition cnorm2 (z : BQCf) : bigQ :=
+  BigQ.add_norm (BigQ.mul_norm (fst z) (fst z)) (BigQ.mul_norm (snd z) (snd z)).
+
+Definition obs_unitary (tol : bigQ) (o : lmx) : bool :=
+  let n := length o in let O := mxl o in
+  forallb (fun i => forallb (fun j =>
+     cclose tol (bigsum n (fun k => fmul BQCf (fconj BQCf (O k i)) (O k j)))
+                (if Nat.eqb i j then b1 else b0)) (seq 0 n)) (seq 0 n).
+
+Definition obs_reciprocal (tol : bigQ) (o : lmx) : bool :=
+  let n := length o in let O := mxl o in
+  forallb (fun i => forallb (fun j => cclose tol (O i j) (O j i)) (seq 0 n)) (seq 0 n).
+
+Definition obs_passive (tol : bigQ) (o : lmx) (us : list (list QcCf)) : bool :=
+  let n := length o in let O := mxl o in
+  forallb (fun u =>
+     let v := vecl u in
+     let pin := fold_right (fun i acc => BigQ.add_norm (cnorm2 (v i)) acc) BigQ.zero (seq 0 n) in
+     let pout := fold_right (fun i acc => BigQ.add_norm (cnorm2 (mv n O v i)) acc) BigQ.zero (seq 0 n) in
+     qle pout (BigQ.add_norm pin tol)) us.
+
+Definition en_verdict (c : en_case) : verdict :=
+  match net_verdict (en_net c), nc_obs (en_net c) with
+  | Agree, Obs o =>
+      if forallb (fun k => match k with
+                           | ELossless => obs_unitary tol9 o
+                           | EReciprocal => obs_reciprocal tol9 o
+                           | EPassive => obs_passive tol9 o (en_us c) end) (en_kinds c)
+      then Agree else Differ
+  | v, _ => v
+  end.
